@@ -23,8 +23,8 @@ import json, os, shlex, subprocess, hashlib
 
 VERIF = os.path.dirname(os.path.dirname(os.path.abspath(__file__)))
 REPO = os.environ.get("VERIF_REPO", "/repo")
-WORK = os.path.join(VERIF, ".work")
-EXTRACT_BIN = os.path.join(WORK, "extract-target", "release", "extract")
+WORK = os.environ.get("VERIF_WORK") or os.path.join(VERIF, ".work")
+EXTRACT_BIN = os.path.join(VERIF, ".work", "extract-target", "release", "extract")
 
 
 class Undecided(Exception):
@@ -35,7 +35,7 @@ def ensure_extractor():
     src = os.path.join(VERIF, "tools", "extract", "src", "main.rs")
     if os.path.exists(EXTRACT_BIN) and os.path.getmtime(EXTRACT_BIN) >= os.path.getmtime(src):
         return
-    env = dict(os.environ, CARGO_NET_OFFLINE="true", CARGO_TARGET_DIR=os.path.join(WORK, "extract-target"))
+    env = dict(os.environ, CARGO_NET_OFFLINE="true", CARGO_TARGET_DIR=os.path.join(VERIF, ".work", "extract-target"))
     r = subprocess.run(["cargo", "build", "--release", "--offline", "--manifest-path",
                         os.path.join(VERIF, "tools", "extract", "Cargo.toml")],
                        env=env, stdout=subprocess.PIPE, stderr=subprocess.STDOUT, text=True)
@@ -125,6 +125,9 @@ def parse_template(path, defines=None):
         elif line.startswith("@expectsig "):
             flush_splice()
             ex["expect_sig"] = line[len("@expectsig "):].strip()
+        elif line.startswith("@expectbody "):
+            flush_splice()
+            ex["expect_body"] = line[len("@expectbody "):].strip()
         elif line.startswith("@sig"):
             flush_splice()
             kv = _kv(shlex.split(line[len("@sig"):]))
@@ -246,6 +249,7 @@ def generate(unit, template, outdir, canary=False, defines=None, subst=None, fra
                 d["splices"].append(sp)
             if "expect_sig" in it:
                 d["expect_sig"] = it["expect_sig"]
+
             req["items"].append(d)
         reqpath = os.path.join(outdir, f"{unit}.{hashlib.md5(f.encode()).hexdigest()[:8]}.req.json")
         json.dump(req, open(reqpath, "w"))
@@ -275,7 +279,8 @@ def generate(unit, template, outdir, canary=False, defines=None, subst=None, fra
                 "linemap": rr["linemap"], "linelabel": rr["linelabel"],
                 "normalisations": rr["normalisations"], "signature": rr["signature"],
                 "shape": rr["shape"], "src_hash": rr["src_sha_fnv"],
-                "n_splices": len(s["splices"]),
+                "n_splices": len(s["splices"]), "body_hash": rr.get("body_tokens_fnv"),
+                "expect_body": s.get("expect_body"),
             })
     path = os.path.join(outdir, f"{unit}{'_canary' if canary else ''}.rs")
     with open(path, "w") as fh:
